@@ -5,6 +5,7 @@ package c17
 // resulting block list is written to a history file and replayed verbatim by every other execution.
 
 import (
+	storetypes "cosmossdk.io/store/types"
 	channeltypes "github.com/cosmos/ibc-go/v8/modules/core/04-channel/types"
 	"encoding/hex"
 	"fmt"
@@ -98,6 +99,7 @@ type gen struct {
 	relayer  detx.Key
 	ibcStep  int       // next step of the channel handshake
 	relayQ   []sdk.Msg // relay messages for the next block
+	vlists   [][2]string // validatorList(missed) probes: op line, observation
 	unrelayed, timedOut []channeltypes.Packet // sent packets that are never delivered / were timed out already
 
 	seq          map[string]uint64
@@ -832,6 +834,7 @@ func (g *gen) run() {
 	stk("withdraw(low-gas)", uint64(30_000+g.rng.Intn(40_000)), "withdraw", dv)
 	g.ibcTraffic(1 + g.rng.Intn(3))
 	g.endBlock(short, "evm precompiles")
+	g.probeValidatorList()
 
 	// ---- phase 6: power changes -> oracle set requests through the PowerDiff path
 	g.tx(g.oracles[1], &crosschaintypes.MsgAddDelegate{ChainName: ethChain, OracleAddress: g.oracles[1].Addr(), Amount: fx(int64(1 + g.rng.Intn(200)))})
@@ -1150,6 +1153,7 @@ func (g *gen) run() {
 	from := g.anyUser()
 	g.tx(from, banktypes.NewMsgSend(from.Acc(), g.anyUser().Acc(), sdk.NewCoins(fxFrac(5))))
 	g.endBlock(short, "final")
+	g.probeValidatorList()
 	ctx := g.c.Ctx()
 	online, offline := 0, 0
 	for _, o := range eth.GetAllOracles(ctx, false) {
@@ -1165,6 +1169,84 @@ func (g *gen) run() {
 		fmt.Printf("final: oracles online=%d offline=%d oracle-set-nonce=%d observed-event-nonce=%d slashed-at=%d\n", online, offline,
 			eth.GetLatestOracleSetNonce(ctx), eth.GetLastObservedEventNonce(ctx), eth.GetLastOracleSlashBlockHeight(ctx))
 	}
+}
+
+// probeValidatorList executes the staking precompile's validatorList(missed) on a discarded branch of the committed state
+// (a really signed MsgEthereumTx through the EVM message server) and records, for the Lean model, the bonded validators
+// with their missed-block counters in STORE order (the input of the sort) and in the returned order: the model checks the
+// contract of a sort for the regenerated comparator (a permutation without inversions) — the order among equal counters is
+// the algorithm's and is compared between the replicas only.
+func (g *gen) probeValidatorList() {
+	stakingABI := fxstakingtypes.GetABI()
+	data, err := stakingABI.Pack("validatorList", uint8(fxstakingtypes.ValidatorSortByMissed))
+	must(err)
+	k := g.users[0]
+	_, sq := g.nextSeq(k)
+	st := common.HexToAddress(contract.StakingAddress)
+	msg, err := detx.SignEthMsg(chainID, detx.EthTx{Signer: k, Nonce: sq, To: &st, Gas: 2_000_000, Data: data})
+	must(err)
+	ctx, _ := g.c.Ctx().CacheContext()
+	ctx = ctx.WithEventManager(sdk.NewEventManager()).WithBlockGasMeter(storetypes.NewInfiniteGasMeter())
+	resp, err := g.c.App.EvmKeeper.EthereumTx(ctx, msg)
+	if err != nil || resp.VmError != "" {
+		g.out.Count("validatorlist-probe:failed")
+		return
+	}
+	outs, err := stakingABI.Unpack("validatorList", resp.Ret)
+	if err != nil || len(outs) != 1 {
+		g.out.Count("validatorlist-probe:bad-output")
+		return
+	}
+	got, ok := outs[0].([]string)
+	if !ok {
+		g.out.Count("validatorlist-probe:bad-output")
+		return
+	}
+	missed := func(oper string) (int64, bool) {
+		va, err := sdk.ValAddressFromBech32(oper)
+		if err != nil {
+			return 0, false
+		}
+		v, err := g.c.App.StakingKeeper.GetValidator(ctx, va)
+		if err != nil {
+			return 0, false
+		}
+		ca, err := v.GetConsAddr()
+		if err != nil {
+			return 0, false
+		}
+		info, err := g.c.App.SlashingKeeper.GetValidatorSigningInfo(ctx, ca)
+		if err != nil {
+			return 0, false
+		}
+		return info.MissedBlocksCounter, true
+	}
+	bonded, err := g.c.App.StakingKeeper.GetLastValidators(ctx)
+	if err != nil {
+		return
+	}
+	var in, outl []string
+	distinct := map[int64]bool{}
+	for _, v := range bonded {
+		m, ok := missed(v.OperatorAddress)
+		if !ok {
+			return
+		}
+		distinct[m] = true
+		in = append(in, fmt.Sprintf("%s:%d", v.OperatorAddress, m))
+	}
+	for _, a := range got {
+		m, ok := missed(a)
+		if !ok {
+			return
+		}
+		outl = append(outl, fmt.Sprintf("%s:%d", a, m))
+	}
+	if len(in) == 0 || len(outl) == 0 {
+		return
+	}
+	g.vlists = append(g.vlists, [2]string{"checksorted " + strings.Join(in, ",") + " | " + strings.Join(outl, ","), "sorted-permutation"})
+	g.out.Count(fmt.Sprintf("validatorlist-probe: validators=%d distinct-counters=%d", len(in), len(distinct)))
 }
 
 // oracleDrops returns two new oracle lists for MsgUpdateChainOracles: (a) the current list without as many of the
